@@ -170,6 +170,10 @@ def rank_body(cfg, history, observe=None):
                 after = [(m.weight.grad.detach().clone(), None if m.bias is None else m.bias.grad.detach().clone()) for m in mods]
                 step += 1
                 obs.append({'ev': ev, 'kind': 'train', 'before': before, 'after': after})
+            elif e[0] == 'sd_nofactors':
+                if rank in e[1]:
+                    pc.state_dict(include_factors=False)
+                obs.append({'ev': ev, 'kind': 'sd_nofactors'})
             elif e[0] == 'state_dict':
                 sd = pc.state_dict()
                 obs.append({'ev': ev, 'kind': 'state_dict', 'sd': copy.deepcopy(sd)})
